@@ -221,101 +221,64 @@ def r8_1(ctx):
 
 def r17_4(ctx):
     """`go` parser: tokens are scanned one at a time; a token that is not a known name advances the
-    scan by exactly one token, a known name consumes itself and its value."""
-    from wa.cond import dominating_facts
-    from wa.linear import linear
+    scan by exactly one token, a known name consumes itself and its value.
+
+    Decided on the token scan (wa/ucishape.py): which token positions, relative to the position an
+    iteration starts at, are compared with the known names (must be position 0), and by how many
+    tokens the scan has moved when the loop header is reached again -- per hypothesis "the current
+    token is <name>" / "is no known name" (the body is specialised under the name tests, so flags and
+    step sizes chosen by the match collapse to the feasible definition).  The scan may be an index,
+    an iterator, a peekable iterator or windows(2)."""
+    from wa.cond import specialise
+    from wa import ucishape
     f = ctx.facts
     b = f.body("uci::parse_go_command")
     ctx.note_fn("uci::parse_go_command")
-    ex = Exprs(b)
-    loops = b.loops()
-    if len(loops) != 1:
-        raise ShapeNotRecognised("parse_go_command: expected one scanning loop, found %d" % len(loops))
-    h, loop = next(iter(loops.items()))
-    # the counter: a usize local incremented inside the loop
-    rd = b.reaching()
-    counters = []
-    for l, name in b.names.items():
-        if b.local_ty(l) != "usize":
-            continue
-        ins = [(loc, k) for loc, k in rd.all_sites(l) if loc[0] in loop]
-        if ins:
-            counters.append(l)
-    if len(counters) != 1:
-        raise ShapeNotRecognised("parse_go_command: cannot establish that an unknown token advances the scan by exactly one token (no single index counter; the tokens are not scanned one at a time)")
-    i = counters[0]
-    # token tests: Eq(commands[i], "name")
-    names = {}
-    for s in loop:
-        if b.term(s)["k"] != "switch":
-            continue
-        d = ex.switch_discr(s)
-        if d[0] == "bin" and d[1] == "Eq":
-            for x, k in ((strip_refs(d[2]), strip_refs(d[3])), (strip_refs(d[3]), strip_refs(d[2]))):
-                if k[0] == "str":
-                    idx = [y[2][1] for y in subexprs(x) if y[0] == "call" and y[1].endswith("::index")] + \
-                          [y[2] for y in subexprs(x) if y[0] == "index"]
-                    ok = bool(idx) and strip_refs(idx[0])[0] == "var" and strip_refs(idx[0])[1] == i
-                    t = b.term(s)
-                    ft = [tg for v, tg in t["cases"] if v == 0]
-                    names[k[1]] = (s, t["otherwise"], ft[0] if ft else None, ok)
+    try:
+        sc, exk = ucishape.token_scan(b)
+    except ShapeNotRecognised as e:
+        raise ShapeNotRecognised("parse_go_command: cannot establish that an unknown token advances the scan by exactly one token (%s)" % e)
+    h = sc.h
+    names = ucishape.keyword_tests(sc)
     ctx.floor("known go tokens", len(names), 5)
-    for nm, (s, tt, ft, ok) in sorted(names.items()):
-        ctx.ob("parse_go_command:token(%s):tests-current-token" % nm, ok, b.where(b.term_loc(s)), "`%s` is compared with commands[i]" % nm)
-    # increments: the total advance of i along one iteration, decided per token hypothesis.  The body
-    # is specialised under "the current token is <name>" / "is no known name" (the name tests are the
-    # hypothesis; branch-selected temporaries such as a `consumed` flag or a step size collapse to
-    # the one definition that is still feasible), then every path of one iteration is summed.
-    from wa.cond import specialise
-    exk = Exprs(b, keep={i})     # the counter stays symbolic: every definition reads `i' + c`
-    tests = {nm: strip_refs(exk.switch_discr(s)) for nm, (s, tt, ft, ok) in names.items()}
+    for nm, (s, tt, ft, offs, d) in sorted(names.items()):
+        ctx.ob("parse_go_command:token(%s):tests-current-token" % nm, offs == {0}, b.where(b.term_loc(s)),
+               "`%s` is compared with the token at offset %s of the scan position; must be the current token (0)" % (nm, sorted(map(str, offs))))
+    gts = [l for l in range(len(b.locals)) if b.local_ty(l) == "time_control::GameTime"]
 
-    def steps_under(which):
-        hyp = {d: ("eq", nm == which) for nm, d in tests.items()}
-        b2, ex2, dead = specialise(b, hyp, keep={i})
+    def under(which):
+        hyp = {d: ("eq", nm == which) for nm, (s, tt, ft, offs, d) in names.items()}
+        b2, ex2, dead = specialise(b, hyp, keep=sc.counters)
         lp2 = b2.natural_loop(h) if h in b2.reachable else set()
-        incs = {}
-        for loc, k in b2.reaching().all_sites(i):
-            if loc[0] in lp2 and k == "whole":
-                e = ex2.rvalue(b2.stmts(loc[0])[loc[1]]["rv"], loc)
-                le = linear(e)
-                if le is not None and len(le[0]) == 1 and list(le[0].values()) == [1] and next(iter(le[0]))[0] == "var" and next(iter(le[0]))[1] == i:
-                    incs[loc[0]] = incs.get(loc[0], 0) + le[1] if incs.get(loc[0], 0) is not None else None
-                else:
-                    incs[loc[0]] = None
-            elif loc[0] in lp2:
-                incs[loc[0]] = None
-        out = set()
-        # under "is <name>" only iterations that take the name's edge count
-        must = names[which][0] if which is not None else None
+        return ucishape.Scan(b2, ex2, sc.src, h, lp2, sc.counters)
 
-        def rec(x, acc, seen, hit):
-            if x not in lp2:
-                return          # leaving the loop: not an iteration step
-            if x == h and seen:
-                if must is None or hit:
-                    out.add(acc)
-                return
-            if x in seen:
-                return
-            a2 = acc
-            if x in incs:
-                if incs[x] is None:
-                    out.add(None)
-                    return
-                a2 = acc + incs[x]
-            for y in b2.succ.get(x, []):
-                rec(y, a2, seen | {x}, hit or x == must)
-        rec(h, 0, set(), False)
-        return out
-
-    dflt = steps_under(None)
+    dflt = under(None).steps
     ctx.ob("parse_go_command:unknown-token-advances-by-one", dflt == {1}, b.where(b.term_loc(h)),
-           "when no known name matches, the index advances by %s per iteration (must be exactly 1, so the next token is examined)" % sorted(map(str, dflt)))
-    for nm, (s, tt, ft, ok) in sorted(names.items()):
-        st = steps_under(nm)
-        ctx.ob("parse_go_command:token(%s):consumes-name-and-value" % nm, st == {2}, b.where(b.term_loc(s)),
-               "after `%s <value>` the index advances by %s (must be 2)" % (nm, sorted(map(str, st))))
+           "when no known name matches, the scan advances by %s per iteration (must be exactly 1, so the next token is examined)" % sorted(map(str, dflt)))
+    for nm, (s, tt, ft, offs, d) in sorted(names.items()):
+        sc2 = under(nm)
+        st = sc2.steps
+        ok = st == {2}
+        why = "after `%s <value>` the scan advances by %s (must be 2)" % (nm, sorted(map(str, st)))
+        if st == {1}:
+            # resuming at the value token itself is the same scan when that token is known not to be
+            # a name: it was parsed into an integer field (unwrap: the parse succeeded) on every
+            # path of the iteration, and no text of an integer equals a known name
+            b2, ex2 = sc2.b, sc2.ex
+            for loc, stt in b2.iter_stmts():
+                p = stt["place"] if stt["k"] == "assign" else None
+                if p is None or loc[0] not in sc2.loop or p["local"] not in gts or not p["proj"] or p["proj"][0]["k"] != "field":
+                    continue
+                ty = f.struct_field_ty("time_control::GameTime", p["proj"][0]["name"]) or ""
+                integer = ty.replace("std::option::Option<", "").rstrip(">") in ("i8", "i16", "i32", "i64", "i128", "isize", "u8", "u16", "u32", "u64", "u128", "usize")
+                e = ex2.rvalue(stt["rv"], loc)
+                unwrapped = any(x[0] == "call" and x[1].endswith("::unwrap") and any(y[0] == "call" and y[1].endswith("<impl str>::parse") for y in subexprs(x)) for x in subexprs(e))
+                toks = [sc2.token_offsets(a) for a in ucishape.parsed_tokens(f, e)]
+                always = not b2.reaches(tt, h, removed_nodes={loc[0]}) and tt != h
+                if integer and unwrapped and toks == [{1}] and always:
+                    ok = True
+                    why = "after `%s <value>` the scan resumes at the value token, which was parsed into the integer field %s (so it is no known name): same scan as advancing by 2" % (nm, p["proj"][0]["name"])
+        ctx.ob("parse_go_command:token(%s):consumes-name-and-value" % nm, ok, b.where(b.term_loc(s)), why)
 
 
 BLOCKING = ("std::sync::mpsc::Receiver::<T>::recv", "std::sync::mpsc::Receiver::<T>::iter", "std::thread::JoinHandle::<T>::join",
